@@ -85,9 +85,13 @@ C07_Cells ==
      cl \in {"init", "ode"}, m \in Methods, n \in Orders, f \in Nfs, d \in Dirs}
   \cup
   {[clause |-> cl, variant |-> v, method |-> "exact", order |-> n, nf |-> f, dir |-> d] :
-     cl \in {"init", "ode", "scale"}, v \in {"qed1", "qed2"}, n \in Orders, f \in Nfs, d \in Dirs}
+     cl \in {"init", "ode", "scale", "steps"}, v \in {"qed1", "qed2"}, n \in Orders, f \in Nfs, d \in Dirs}
 C07_InDomain(c) == c.variant # "qcd" \/ NsExact(c.method, c.order)
-C07_Req(c) == IF c.clause = "init" THEN Dec(12, "rounding") ELSE Dec(7, "local-ode-1e-7")
+(* "steps": the dispatcher's product over coupling / scale steps with the same alpha_em on every step equals  *)
+(* the one-step solution between the end points (the exact kernel and the pure-QED scale factor compose)      *)
+C07_Req(c) == IF c.clause = "init" THEN Dec(12, "rounding")
+              ELSE IF c.clause = "steps" THEN Dec(10, "steps-compose")
+              ELSE Dec(7, "local-ode-1e-7")
 
 (* ============================ C13 evolution integrals ========================= *)
 (* level = number of beta coefficients kept, power = k in a^k / beta(a) *)
